@@ -12,7 +12,7 @@ from __future__ import annotations
 import ast
 from pathlib import Path
 
-from ..astx import call_name, dotted, enclosing_stmt, expand, kwarg, last
+from ..astx import call_name, dotted, enclosing_stmt, expand, kwarg, last, reaching_def
 from ..index import AnchorError, FuncNode, _set_parents, enclosing_class, enclosing_function, parent, qualname_of
 from ..selftest import Twin
 
@@ -33,6 +33,9 @@ EXPLANATION = (
     "(serialize_value) and the __init__ chain through deserialize_value; a raw injection is flattened by model_dump(mode='json'). "
     "R5 the three envelope writers take the payload from model_dump(mode='json') and the readers from model_validate. "
     "R6 override completeness: pydantic keeps one model_serializer per class, so a subclass hook must delegate to, or repeat, every injection of the hooks it replaces. "
+    "R8 writer completeness: every model_dump / model_dump_json call in a function on a writer path (JsonSerializer, envelope writers incl. client send and server stream, field serializers, "
+    "serializer hooks, and what they call three deep) and every dump through the tick TypeAdapter anywhere in the repo passes no exclude_unset / exclude_defaults / exclude_none / exclude / include that "
+    "can drop a declared field (literal, **dict built nearby, or module constant; constant False/None is fine). "
     "R7 exception payload: what the writer records as the message (rendering str(exc) vs constructor args) must be what the reader feeds back (cls(msg) vs cls(*args)). "
     "NOT decided: equality of arbitrary payload values, behaviour of pydantic itself, tuples/sets (not JSON-representable), AddWaiter.requirements (dropped by design)."
 )
@@ -281,6 +284,9 @@ def run(chk) -> None:
     repo = chk.repo
     ev, ser, ut, tk, rs, envm = (repo.module(x) for x in (EV, SER, UT, TK, RS, ENV))
 
+    # ------------------------------------------------------------------ R8 writer completeness (every dump call on a writer path)
+    _writer_completeness(chk, repo)
+
     # ------------------------------------------------------------------ R1a tagged dicts of JsonSerializer
     _, js = repo.cls(f"{SER}:JsonSerializer")
     meth = {f.name: f for f in js.body if isinstance(f, FuncNode)}
@@ -309,7 +315,7 @@ def run(chk) -> None:
         chk.ob("C18.R1", f"the `{tag}` payload written by `{pname}` is read by its inverse ({sorted(INVERSE[pname])})", bool(cons & INVERSE[pname]), m=ser, node=b, fn=rfn, instance=f"inverse:{tag}",
                reason=f"reader applies {sorted(c for c in cons if c)} to the payload")
         if pname == "model_dump":
-            mode = kwarg(prod, "mode")
+            mode = _resolve_const(_dump_kwargs(prod, ser).get("mode"), prod, ser) if "mode" in _dump_kwargs(prod, ser) else None
             chk.ob("C18.R5", "JsonSerializer dumps the model in JSON mode", isinstance(mode, ast.Constant) and mode.value == "json", m=ser, node=prod, fn=wfn, instance="dump-mode:JsonSerializer",
                    reason="python-mode dump leaves non-JSON values (datetime, enum, nested models) in the payload")
     # recursion over plain containers is symmetric
@@ -587,7 +593,7 @@ def _name_forms(chk, repo, ev, ser, ut, envm, pairs) -> None:
         if len(dumps) != 1:
             raise AnchorError(f"C18.R5: {q} does not take its payload from one model_dump call")
         nenv += 1
-        mode = kwarg(dumps[0], "mode")
+        mode = _resolve_const(_dump_kwargs(dumps[0], envm).get("mode"), dumps[0], envm) if "mode" in _dump_kwargs(dumps[0], envm) else None
         chk.ob("C18.R5", f"{q} takes the payload from model_dump(mode='json')", isinstance(mode, ast.Constant) and mode.value == "json", m=envm, node=dumps[0], fn=fn, instance=f"dump-mode:{q}",
                reason="the envelope's value is not the JSON-mode dump the other formats use (datetime / enum / nested exception fields differ or fail to encode)")
     parse = envm.functions.get("EventEnvelope.parse")
@@ -626,6 +632,159 @@ def _calls_one_deep(m, call: ast.Call, target: str) -> bool:
     return f is not None and _calls_fn(f, target)
 
 
+# ============================================================================ R8 writer completeness
+
+DROP_ARGS = {"exclude_unset", "exclude_defaults", "exclude_none", "exclude", "include"}
+DUMP_CALLS = {"model_dump", "model_dump_json", "dump_python", "dump_json"}
+CLIENT = "llama_agents.client.client"
+SERVER_API = "llama_agents.server._api"
+
+
+def _resolve_const(e: ast.AST, at: ast.AST, m) -> ast.AST:
+    """Follow a name to its straight-line local definition or to a module-level constant."""
+    for _ in range(4):
+        if not isinstance(e, ast.Name):
+            return e
+        d = reaching_def(e.id, at)
+        if d is None:
+            d = _module_assign(m, e.id)
+        if d is None:
+            return e
+        e, at = d, d
+    return e
+
+
+def _dump_kwargs(call: ast.Call, m) -> dict[str, ast.AST]:
+    """Effective keyword arguments of a dump call: literal keywords plus **dicts built nearby / module constants
+    (dict literal, dict(...) call, later `d[k] = v` stores in the same function).  Unreadable ** raises AnchorError."""
+    out: dict[str, ast.AST] = {}
+    fn = enclosing_function(call)
+    for k in call.keywords:
+        if k.arg is not None:
+            out[k.arg] = k.value
+            continue
+        src = k.value
+        d = _resolve_const(src, call, m)
+        items: list[tuple[str, ast.AST]] = []
+        if isinstance(d, ast.Dict) and all(isinstance(x, ast.Constant) and isinstance(x.value, str) for x in d.keys):
+            items = [(x.value, v) for x, v in zip(d.keys, d.values)]
+        elif isinstance(d, ast.Call) and call_name(d) == "dict" and not d.args and all(x.arg for x in d.keywords):
+            items = [(x.arg, x.value) for x in d.keywords]
+        else:
+            raise AnchorError(f"C18.R8: cannot read the keyword dict `**{ast.unparse(src)[:40]}` of `{ast.unparse(call)[:60]}` (not a dict built nearby or a module constant)")
+        if isinstance(src, ast.Name) and fn is not None:
+            for n in ast.walk(fn):
+                if isinstance(n, ast.Assign) and len(n.targets) == 1 and isinstance(n.targets[0], ast.Subscript) and dotted(n.targets[0].value) == src.id:
+                    sl = n.targets[0].slice
+                    if not (isinstance(sl, ast.Constant) and isinstance(sl.value, str)):
+                        raise AnchorError(f"C18.R8: computed key stored into `{src.id}` before `{ast.unparse(call)[:50]}`")
+                    items.append((sl.value, n.value))
+                if isinstance(n, ast.Call) and isinstance(n.func, ast.Attribute) and n.func.attr in ("update", "setdefault") and dotted(n.func.value) == src.id:
+                    if n.func.attr == "update" and not n.args and all(x.arg for x in n.keywords):
+                        items += [(x.arg, x.value) for x in n.keywords]
+                    elif n.func.attr == "update" and len(n.args) == 1 and isinstance(n.args[0], ast.Dict) and all(isinstance(x, ast.Constant) for x in n.args[0].keys):
+                        items += [(x.value, v) for x, v in zip(n.args[0].keys, n.args[0].values)]
+                    elif n.func.attr == "setdefault" and n.args and isinstance(n.args[0], ast.Constant):
+                        items.append((n.args[0].value, n.args[1] if len(n.args) > 1 else ast.Constant(value=None)))
+                    else:
+                        raise AnchorError(f"C18.R8: `{ast.unparse(n)[:50]}` changes the keyword dict of a dump call in a way this rule cannot read")
+        for name, v in items:
+            out[name] = v
+    return out
+
+
+def _writer_functions(repo) -> list[tuple[object, ast.AST, str]]:
+    """(module, function, why) for every function on a serialization writer path: the roots and, three calls deep,
+    the functions of the same modules they call by name."""
+    mods = {n: repo.module(n) for n in (EV, SER, UT, TK, RS, ENV, CLIENT, SERVER_API)}
+    roots: list[tuple[object, ast.AST, str]] = []
+
+    def need(mname: str, q: str, why: str) -> None:
+        f = mods[mname].functions.get(q)
+        if f is None:
+            raise AnchorError(f"C18.R8: writer `{q}` not found in {mods[mname].rel}")
+        roots.append((mods[mname], f, why))
+
+    need(SER, "JsonSerializer.serialize_value", "JSON serializer")
+    need(SER, "JsonSerializer.serialize", "JSON serializer")
+    need(ENV, "EventEnvelopeWithMetadata.from_event", "client envelope")
+    need(ENV, "EventEnvelope.from_event", "client envelope")
+    need(ENV, "EventEnvelopeWithMetadata.load_event", "client envelope (re-dump)")
+    need(CLIENT, "_serialize_event", "client envelope (send_event / run)")
+    need(SERVER_API, "_WorkflowAPI._stream_events", "client envelope (event stream)")
+    for mname in (EV, RS, TK):
+        m = mods[mname]
+        for n, (_st, _bt, marks) in _annotated_aliases(m).items():
+            if "PlainSerializer" in marks and marks["PlainSerializer"].args:
+                f = m.functions.get(dotted(marks["PlainSerializer"].args[0]) or "")
+                if f is not None:
+                    roots.append((m, f, f"field serializer of {n}"))
+        for q, f in m.functions.items():
+            if _deco(f, "model_serializer") is not None or _deco(f, "field_serializer") is not None:
+                roots.append((m, f, "pydantic serializer hook"))
+    seen = {id(f) for _m, f, _w in roots}
+    frontier = list(roots)
+    for _depth in range(3):
+        nxt = []
+        for m, f, why in frontier:
+            for c in ast.walk(f):
+                if isinstance(c, ast.Call):
+                    ln = last(call_name(c))
+                    if not ln or ln in DUMP_CALLS:
+                        continue
+                    for m2 in mods.values():
+                        for q, g in m2.functions.items():
+                            if q.rsplit(".", 1)[-1] == ln and id(g) not in seen and not ln.startswith("__"):
+                                seen.add(id(g))
+                                nxt.append((m2, g, f"called from {qualname_of(f)} ({why})"))
+        roots += nxt
+        frontier = nxt
+    return roots
+
+
+def _writer_completeness(chk, repo) -> None:
+    sites: list[tuple[object, ast.AST, ast.Call, str]] = []
+    done: set[int] = set()
+    for m, f, why in _writer_functions(repo):
+        for c in ast.walk(f):
+            if isinstance(c, ast.Call) and isinstance(c.func, ast.Attribute) and c.func.attr in ("model_dump", "model_dump_json") and id(c) not in done:
+                done.add(id(c))
+                sites.append((m, enclosing_function(c) or f, c, why))
+    # the persisted tick format: every dump through the tick adapter, repo-wide
+    _tk = repo.module(TK)
+    adapters = {t.id for st in _tk.tree.body if isinstance(st, (ast.Assign, ast.AnnAssign)) and st.value is not None and isinstance(st.value, ast.Call) and last(call_name(st.value)) == "TypeAdapter"
+                for t in (st.targets if isinstance(st, ast.Assign) else [st.target]) if isinstance(t, ast.Name)}
+    if not adapters:
+        raise AnchorError("C18.R8: no TypeAdapter for the tick union in runtime/types/ticks.py")
+    nad = 0
+    for m in list(repo.by_rel.values()):
+        if not any(a in m.src for a in adapters):
+            continue
+        for c in ast.walk(m.tree):
+            if isinstance(c, ast.Call) and isinstance(c.func, ast.Attribute) and c.func.attr in ("dump_python", "dump_json") and last(dotted(c.func.value)) in adapters and id(c) not in done:
+                done.add(id(c))
+                repo.consulted.add(m.rel)
+                nad += 1
+                sites.append((m, enclosing_function(c), c, "persisted tick format"))
+    chk.floor("C18.R8", "dump calls on serialization writer paths", len(sites), 8)
+    chk.floor("C18.R8", "dumps through the tick TypeAdapter", nad, 2)
+    per_fn: dict[str, int] = {}
+    for m, f, c, why in sites:
+        q = qualname_of(f) if f is not None else "<module>"
+        per_fn[q] = per_fn.get(q, 0) + 1
+        kws = _dump_kwargs(c, m)
+        bad = []
+        for name in sorted(DROP_ARGS & set(kws)):
+            v = _resolve_const(kws[name], c, m)
+            if isinstance(v, ast.Constant) and (v.value is None or v.value is False):
+                continue
+            bad.append(f"{name}={ast.unparse(v)[:40]}")
+        chk.ob("C18.R8", f"`{ast.unparse(c)[:70]}` ({why}) dumps every declared field (no exclude_unset / exclude_defaults / exclude_none / exclude / include that can drop one)", not bad,
+               m=m, node=c, fn=f, instance=f"complete-dump:{c.func.attr}#{per_fn[q]}",
+               reason=f"{', '.join(bad)}: fields dropped on write are rebuilt from class defaults on read (default_factory values such as ids / timestamps differ, containers filled after construction are lost), at every nesting level")
+    chk.extra["dump_calls_inspected"] = len(sites)
+
+
 # ============================================================================ fixture (planted positive for the zero-expected raw-annotation detector)
 
 FIXTURE = Path(__file__).resolve().parent.parent.parent / "fixtures" / "c18" / "planted.py"
@@ -653,6 +812,9 @@ _U = "packages/llama-index-workflows/src/workflows/context/utils.py"
 _T = "packages/llama-index-workflows/src/workflows/runtime/types/ticks.py"
 _R = "packages/llama-index-workflows/src/workflows/runtime/types/results.py"
 _V = "packages/llama-agents-client/src/llama_agents/client/protocol/serializable_events.py"
+
+_P = "packages/llama-agents-server/src/llama_agents/server/_runtime/persistence_runtime.py"
+_A = "packages/llama-agents-server/src/llama_agents/server/_api.py"
 
 _WALK = '''    except ImportError as e:
         parts = qualified_name.split(".")
@@ -689,8 +851,9 @@ TWINS = [
     Twin("walk result dropped, falls through to the error", _U, "                    obj = getattr(obj, name)\n                return obj\n", "                    obj = getattr(obj, name)\n", "C18.R2"),
     Twin("exception writer truncates to __name__", _E, 'qualified_name = f"{exc_type.__module__}.{exc_type.__qualname__}"', 'qualified_name = f"{exc_type.__module__}.{exc_type.__name__}"', "C18.R2"),
     Twin("event-type writer truncates to __name__", _E, 'return f"{event_type.__module__}.{event_type.__qualname__}"', 'return f"{event_type.__module__}.{event_type.__name__}"', "C18.R2"),
-    Twin("benign (repair): JsonSerializer writer uses __qualname__", _U, 'return value.__module__ + "." + value.__class__.__name__', 'return value.__module__ + "." + value.__class__.__qualname__', None),
-    Twin("benign (repair): envelope writer uses __qualname__", _V, 'return f"{event.__module__}.{event.__name__}"', 'return f"{event.__module__}.{event.__qualname__}"', None),
+    Twin("JsonSerializer writer truncates to __name__ (revert 63489fd, utils)", _U, 'return value.__module__ + "." + value.__class__.__qualname__', 'return value.__module__ + "." + value.__class__.__name__', "C18.R2"),
+    Twin("envelope writer truncates to __name__ (revert 63489fd, client)", _V, 'return f"{event.__module__}.{event.__qualname__}"', 'return f"{event.__module__}.{event.__name__}"', "C18.R2"),
+    Twin("benign: envelope writer by concatenation", _V, 'return f"{event.__module__}.{event.__qualname__}"', 'return event.__module__ + "." + event.__qualname__', None),
     Twin("benign: concatenation instead of f-string", _E, 'return f"{event_type.__module__}.{event_type.__qualname__}"', 'return event_type.__module__ + "." + event_type.__qualname__', None),
     Twin("benign: maxsplit keyword", _U, 'module_path = qualified_name.rsplit(".", 1)', 'module_path = qualified_name.rsplit(".", maxsplit=1)', None),
     Twin("benign: walk written as a while loop", _U, "                for name in parts[i:]:\n                    obj = getattr(obj, name)\n", "                rest = parts[i:]\n                while rest:\n                    obj = getattr(obj, rest.pop(0))\n", None),
@@ -720,6 +883,22 @@ TWINS = [
     Twin("benign: explicit base-class call", _E, "        data = super().custom_model_dump(handler)\n", "        data = DictLikeModel.custom_model_dump(self, handler)\n", None),
     Twin("dynamic fields injected as a raw copy (another raw form of the known finding)", _E, 'data["_data"] = self._data', 'data["_data"] = dict(self._data)', "C18.R4"),
     Twin("exception message written as repr (another failure of the known construct)", _E, '"exception_message": str(exc),', '"exception_message": repr(exc),', "C18.R7"),
+    # R8 writer completeness
+    Twin("JsonSerializer dumps only the fields that were set (seeded shape)", _S, 'value.model_dump(mode="json")', 'value.model_dump(mode="json", exclude_unset=True)', "C18.R8"),
+    Twin("client envelope drops defaulted fields", _V, '            value=event.model_dump(mode="json"),', '            value=event.model_dump(mode="json", exclude_defaults=True),', "C18.R8"),
+    Twin("server envelope drops None fields", _V, '        value = event.model_dump(mode="json")', '        value = event.model_dump(mode="json", exclude_none=True)', "C18.R8"),
+    Twin("tick adapter dumps an include list", _P, 'tick_data = WorkflowTickAdapter.dump_python(tick, mode="json")', 'tick_data = WorkflowTickAdapter.dump_python(tick, mode="json", include={"type", "event"})', "C18.R8"),
+    Twin("drop option arrives through a keyword dict built nearby", _S, '        if isinstance(value, BaseModel):\n            return {\n                "__is_pydantic": True,\n                "value": value.model_dump(mode="json"),',
+         '        if isinstance(value, BaseModel):\n            opts = {"mode": "json"}\n            opts["exclude_unset"] = True\n            return {\n                "__is_pydantic": True,\n                "value": value.model_dump(**opts),', "C18.R8"),
+    Twin("drop option arrives through a module constant", _V,
+         '        value = event.model_dump(mode="json")\n\n        envelope = EventEnvelopeWithMetadata(\n            value=value,\n            qualified_name=_get_qualified_name(type(event))\n            if include_qualified_name\n            else None,\n            types=_get_event_subtypes(type(event)),\n            type=type(event).__name__,\n        )\n        return envelope\n\n\nclass EventEnvelope(BaseModel):',
+         '        value = event.model_dump(mode="json", exclude_none=_COMPACT)\n\n        envelope = EventEnvelopeWithMetadata(\n            value=value,\n            qualified_name=_get_qualified_name(type(event))\n            if include_qualified_name\n            else None,\n            types=_get_event_subtypes(type(event)),\n            type=type(event).__name__,\n        )\n        return envelope\n\n\n_COMPACT = True\n\n\nclass EventEnvelope(BaseModel):', "C18.R8"),
+    Twin("stream payload excludes a field", _A, "payload = envelope.model_dump_json()", 'payload = envelope.model_dump_json(exclude={"types"})', "C18.R8"),
+    Twin("benign: explicit exclude_unset=False", _S, 'value.model_dump(mode="json")', 'value.model_dump(mode="json", exclude_unset=False)', None),
+    Twin("benign: round_trip / by_alias / warnings", _V, '            value=event.model_dump(mode="json"),', '            value=event.model_dump(mode="json", round_trip=True, by_alias=False, warnings=True),', None),
+    Twin("benign: keyword dict without drop options", _S, '        if isinstance(value, BaseModel):\n            return {\n                "__is_pydantic": True,\n                "value": value.model_dump(mode="json"),',
+         '        if isinstance(value, BaseModel):\n            opts = {"mode": "json", "exclude_none": False}\n            return {\n                "__is_pydantic": True,\n                "value": value.model_dump(**opts),', None),
+    Twin("benign: exclude=None on the tick adapter", _P, 'tick_data = WorkflowTickAdapter.dump_python(tick, mode="json")', 'tick_data = WorkflowTickAdapter.dump_python(tick, mode="json", exclude=None)', None),
     # R7 (fires on the unchanged tree; twins only check that refactors do not change the verdict)
     Twin("benign: message local renamed", _E, '    exc_message = data["exception_message"]\n    try:\n        exc_cls = import_module_from_qualified_name(data["exception_type"])\n        return exc_cls(exc_message)\n    except (ImportError, AttributeError, ValueError):\n        return Exception(exc_message)',
          '    msg = data["exception_message"]\n    try:\n        exc_cls = import_module_from_qualified_name(data["exception_type"])\n        return exc_cls(msg)\n    except (ImportError, AttributeError, ValueError):\n        return Exception(msg)', None),
